@@ -1,0 +1,936 @@
+	.file	"test_fname.c"
+	.text
+.Ltext0:
+	.file 0 "/repo/aldor/aldor/src" "test/test_fname.c"
+	.section	.rodata
+.LC0:
+	.string	"Work/aldor/opt/bin/aldor"
+.LC1:
+	.string	"/opt/home/pab"
+	.align 8
+.LC2:
+	.string	"/opt/home/pab/Work/aldor/opt/bin/aldor"
+.LC3:
+	.string	"Test1"
+.LC4:
+	.string	"./Work/aldor/opt/bin/aldor"
+	.align 8
+.LC5:
+	.string	"/opt/home/pab/./Work/aldor/opt/bin/aldor"
+.LC6:
+	.string	"Test2"
+.LC7:
+	.string	"../Work/aldor/opt/bin/aldor"
+.LC8:
+	.string	"/opt/home/pab/foo"
+	.align 8
+.LC9:
+	.string	"/opt/home/pab/foo/../Work/aldor/opt/bin/aldor"
+.LC10:
+	.string	"Test3"
+.LC11:
+	.string	"/usr/lib/aldor/bin/aldor"
+.LC12:
+	.string	"Test4"
+.LC13:
+	.string	"Test5"
+.LC14:
+	.string	"../bin/aldor"
+.LC15:
+	.string	"."
+.LC16:
+	.string	"./../bin/aldor"
+.LC17:
+	.string	"Test6"
+.LC18:
+	.string	"../../opt/bin/aldor"
+.LC19:
+	.string	"./../../opt/bin/.."
+.LC20:
+	.string	"Test7"
+.LC21:
+	.string	"/usr/bin/aldor"
+.LC22:
+	.string	"/usr/bin/.."
+.LC23:
+	.string	"Test8"
+	.text
+	.globl	fnameTest
+	.type	fnameTest, @function
+fnameTest:
+.LFB0:
+	.file 1 "test/test_fname.c"
+	.loc 1 9 1
+	.cfi_startproc
+	pushq	%rbp
+	.cfi_def_cfa_offset 16
+	.cfi_offset 6, -16
+	movq	%rsp, %rbp
+	.cfi_def_cfa_register 6
+	subq	$16, %rsp
+	.loc 1 12 6
+	leaq	.LC0(%rip), %rax
+	movq	%rax, %rsi
+	leaq	.LC1(%rip), %rax
+	movq	%rax, %rdi
+	call	fnameAbsolute
+	movq	%rax, -8(%rbp)
+	.loc 1 13 2
+	movq	-8(%rbp), %rax
+	movq	%rax, %rdx
+	leaq	.LC2(%rip), %rax
+	movq	%rax, %rsi
+	leaq	.LC3(%rip), %rax
+	movq	%rax, %rdi
+	call	testStringEqual@PLT
+	.loc 1 15 6
+	leaq	.LC4(%rip), %rax
+	movq	%rax, %rsi
+	leaq	.LC1(%rip), %rax
+	movq	%rax, %rdi
+	call	fnameAbsolute
+	movq	%rax, -8(%rbp)
+	.loc 1 16 2
+	movq	-8(%rbp), %rax
+	movq	%rax, %rdx
+	leaq	.LC5(%rip), %rax
+	movq	%rax, %rsi
+	leaq	.LC6(%rip), %rax
+	movq	%rax, %rdi
+	call	testStringEqual@PLT
+	.loc 1 18 6
+	leaq	.LC7(%rip), %rax
+	movq	%rax, %rsi
+	leaq	.LC8(%rip), %rax
+	movq	%rax, %rdi
+	call	fnameAbsolute
+	movq	%rax, -8(%rbp)
+	.loc 1 19 2
+	movq	-8(%rbp), %rax
+	movq	%rax, %rdx
+	leaq	.LC9(%rip), %rax
+	movq	%rax, %rsi
+	leaq	.LC10(%rip), %rax
+	movq	%rax, %rdi
+	call	testStringEqual@PLT
+	.loc 1 21 6
+	leaq	.LC11(%rip), %rax
+	movq	%rax, %rsi
+	leaq	.LC1(%rip), %rax
+	movq	%rax, %rdi
+	call	fnameAbsolute
+	movq	%rax, -8(%rbp)
+	.loc 1 22 2
+	movq	-8(%rbp), %rax
+	movq	%rax, %rdx
+	leaq	.LC11(%rip), %rax
+	movq	%rax, %rsi
+	leaq	.LC12(%rip), %rax
+	movq	%rax, %rdi
+	call	testStringEqual@PLT
+	.loc 1 24 6
+	leaq	.LC11(%rip), %rax
+	movq	%rax, %rsi
+	leaq	.LC1(%rip), %rax
+	movq	%rax, %rdi
+	call	fnameAbsolute
+	movq	%rax, -8(%rbp)
+	.loc 1 25 2
+	movq	-8(%rbp), %rax
+	movq	%rax, %rdx
+	leaq	.LC11(%rip), %rax
+	movq	%rax, %rsi
+	leaq	.LC13(%rip), %rax
+	movq	%rax, %rdi
+	call	testStringEqual@PLT
+	.loc 1 27 6
+	leaq	.LC14(%rip), %rax
+	movq	%rax, %rsi
+	leaq	.LC15(%rip), %rax
+	movq	%rax, %rdi
+	call	fnameAbsolute
+	movq	%rax, -8(%rbp)
+	.loc 1 28 2
+	movq	-8(%rbp), %rax
+	movq	%rax, %rdx
+	leaq	.LC16(%rip), %rax
+	movq	%rax, %rsi
+	leaq	.LC17(%rip), %rax
+	movq	%rax, %rdi
+	call	testStringEqual@PLT
+	.loc 1 30 6
+	leaq	.LC18(%rip), %rax
+	movq	%rax, %rsi
+	leaq	.LC15(%rip), %rax
+	movq	%rax, %rdi
+	call	fnameToRoot
+	movq	%rax, -8(%rbp)
+	.loc 1 31 2
+	movq	-8(%rbp), %rax
+	movq	%rax, %rdx
+	leaq	.LC19(%rip), %rax
+	movq	%rax, %rsi
+	leaq	.LC20(%rip), %rax
+	movq	%rax, %rdi
+	call	testStringEqual@PLT
+	.loc 1 33 6
+	leaq	.LC21(%rip), %rax
+	movq	%rax, %rsi
+	leaq	.LC15(%rip), %rax
+	movq	%rax, %rdi
+	call	fnameToRoot
+	movq	%rax, -8(%rbp)
+	.loc 1 34 2
+	movq	-8(%rbp), %rax
+	movq	%rax, %rdx
+	leaq	.LC22(%rip), %rax
+	movq	%rax, %rsi
+	leaq	.LC23(%rip), %rax
+	movq	%rax, %rdi
+	call	testStringEqual@PLT
+	.loc 1 36 1
+	nop
+	leave
+	.cfi_def_cfa 7, 8
+	ret
+	.cfi_endproc
+.LFE0:
+	.size	fnameTest, .-fnameTest
+	.section	.rodata
+.LC24:
+	.string	""
+.LC25:
+	.string	".."
+	.text
+	.type	fnameToRoot, @function
+fnameToRoot:
+.LFB1:
+	.loc 1 40 1
+	.cfi_startproc
+	pushq	%rbp
+	.cfi_def_cfa_offset 16
+	.cfi_offset 6, -16
+	movq	%rsp, %rbp
+	.cfi_def_cfa_register 6
+	subq	$48, %rsp
+	movq	%rdi, -40(%rbp)
+	movq	%rsi, -48(%rbp)
+	.loc 1 41 19
+	movq	-40(%rbp), %rdx
+	movq	-48(%rbp), %rax
+	movq	%rdx, %rsi
+	movq	%rax, %rdi
+	call	fnameParseStaticWithin@PLT
+	movq	%rax, -8(%rbp)
+	.loc 1 42 9
+	movq	-8(%rbp), %rax
+	movq	(%rax), %rax
+	movq	%rax, -16(%rbp)
+	.loc 1 43 21
+	movq	-16(%rbp), %rax
+	leaq	.LC24(%rip), %rdx
+	leaq	.LC25(%rip), %rcx
+	movq	%rcx, %rsi
+	movq	%rax, %rdi
+	call	fnameNew@PLT
+	movq	%rax, -24(%rbp)
+	.loc 1 45 16
+	movq	-24(%rbp), %rax
+	movq	%rax, %rdi
+	call	fnameUnparse@PLT
+	movq	%rax, -32(%rbp)
+	.loc 1 47 9
+	movq	-32(%rbp), %rax
+	.loc 1 48 1
+	leave
+	.cfi_def_cfa 7, 8
+	ret
+	.cfi_endproc
+.LFE1:
+	.size	fnameToRoot, .-fnameToRoot
+	.type	fnameAbsolute, @function
+fnameAbsolute:
+.LFB2:
+	.loc 1 53 1
+	.cfi_startproc
+	pushq	%rbp
+	.cfi_def_cfa_offset 16
+	.cfi_offset 6, -16
+	movq	%rsp, %rbp
+	.cfi_def_cfa_register 6
+	subq	$32, %rsp
+	movq	%rdi, -24(%rbp)
+	movq	%rsi, -32(%rbp)
+	.loc 1 54 15
+	movq	-24(%rbp), %rdx
+	movq	-32(%rbp), %rax
+	movq	%rdx, %rsi
+	movq	%rax, %rdi
+	call	fnameParseStaticWithin@PLT
+	movq	%rax, -8(%rbp)
+	.loc 1 55 9
+	movq	-8(%rbp), %rax
+	movq	%rax, %rdi
+	call	fnameUnparse@PLT
+	.loc 1 56 1
+	leave
+	.cfi_def_cfa 7, 8
+	ret
+	.cfi_endproc
+.LFE2:
+	.size	fnameAbsolute, .-fnameAbsolute
+.Letext0:
+	.file 2 "./cport.h"
+	.file 3 "./axlgen.h"
+	.file 4 "./fname.h"
+	.file 5 "test/testlib.h"
+	.section	.debug_info,"",@progbits
+.Ldebug_info0:
+	.long	0x21c
+	.value	0x5
+	.byte	0x1
+	.byte	0x8
+	.long	.Ldebug_abbrev0
+	.uleb128 0xa
+	.long	.LASF25
+	.byte	0xc
+	.long	.LASF0
+	.long	.LASF1
+	.quad	.Ltext0
+	.quad	.Letext0-.Ltext0
+	.long	.Ldebug_line0
+	.uleb128 0xb
+	.byte	0x4
+	.byte	0x5
+	.string	"int"
+	.uleb128 0x1
+	.byte	0x1
+	.byte	0x8
+	.long	.LASF2
+	.uleb128 0x1
+	.byte	0x2
+	.byte	0x7
+	.long	.LASF3
+	.uleb128 0x1
+	.byte	0x4
+	.byte	0x7
+	.long	.LASF4
+	.uleb128 0x1
+	.byte	0x8
+	.byte	0x7
+	.long	.LASF5
+	.uleb128 0x1
+	.byte	0x1
+	.byte	0x6
+	.long	.LASF6
+	.uleb128 0x1
+	.byte	0x2
+	.byte	0x5
+	.long	.LASF7
+	.uleb128 0x1
+	.byte	0x8
+	.byte	0x5
+	.long	.LASF8
+	.uleb128 0x5
+	.long	0x6b
+	.uleb128 0x1
+	.byte	0x1
+	.byte	0x6
+	.long	.LASF9
+	.uleb128 0x1
+	.byte	0x4
+	.byte	0x4
+	.long	.LASF10
+	.uleb128 0x1
+	.byte	0x8
+	.byte	0x4
+	.long	.LASF11
+	.uleb128 0x1
+	.byte	0x8
+	.byte	0x5
+	.long	.LASF12
+	.uleb128 0xc
+	.long	.LASF13
+	.byte	0x2
+	.value	0x16a
+	.byte	0xf
+	.long	0x66
+	.uleb128 0xd
+	.long	.LASF14
+	.byte	0x3
+	.byte	0x28
+	.byte	0x1b
+	.long	0xa0
+	.uleb128 0x5
+	.long	0xa5
+	.uleb128 0xe
+	.long	.LASF26
+	.byte	0x50
+	.byte	0x4
+	.byte	0xe
+	.byte	0x8
+	.long	0xc0
+	.uleb128 0xf
+	.long	.LASF27
+	.byte	0x4
+	.byte	0xf
+	.byte	0x9
+	.long	0xc0
+	.byte	0
+	.byte	0
+	.uleb128 0x10
+	.long	0x87
+	.long	0xd0
+	.uleb128 0x11
+	.long	0x4a
+	.byte	0x9
+	.byte	0
+	.uleb128 0x4
+	.long	.LASF15
+	.byte	0x2d
+	.byte	0xf
+	.long	0x87
+	.long	0xe5
+	.uleb128 0x2
+	.long	0x94
+	.byte	0
+	.uleb128 0x4
+	.long	.LASF16
+	.byte	0x1e
+	.byte	0x11
+	.long	0x94
+	.long	0x104
+	.uleb128 0x2
+	.long	0x87
+	.uleb128 0x2
+	.long	0x87
+	.uleb128 0x2
+	.long	0x87
+	.byte	0
+	.uleb128 0x4
+	.long	.LASF17
+	.byte	0x2b
+	.byte	0x11
+	.long	0x94
+	.long	0x11e
+	.uleb128 0x2
+	.long	0x87
+	.uleb128 0x2
+	.long	0x87
+	.byte	0
+	.uleb128 0x12
+	.long	.LASF28
+	.byte	0x5
+	.byte	0x6
+	.byte	0x6
+	.long	0x13a
+	.uleb128 0x2
+	.long	0x87
+	.uleb128 0x2
+	.long	0x87
+	.uleb128 0x2
+	.long	0x87
+	.byte	0
+	.uleb128 0x6
+	.long	.LASF19
+	.byte	0x34
+	.long	0x87
+	.quad	.LFB2
+	.quad	.LFE2-.LFB2
+	.uleb128 0x1
+	.byte	0x9c
+	.long	0x183
+	.uleb128 0x7
+	.string	"dir"
+	.byte	0x34
+	.byte	0x16
+	.long	0x87
+	.uleb128 0x2
+	.byte	0x91
+	.sleb128 -40
+	.uleb128 0x8
+	.long	.LASF18
+	.byte	0x34
+	.byte	0x22
+	.long	0x87
+	.uleb128 0x2
+	.byte	0x91
+	.sleb128 -48
+	.uleb128 0x9
+	.string	"f"
+	.byte	0x36
+	.byte	0xb
+	.long	0x94
+	.uleb128 0x2
+	.byte	0x91
+	.sleb128 -24
+	.byte	0
+	.uleb128 0x6
+	.long	.LASF20
+	.byte	0x27
+	.long	0x87
+	.quad	.LFB1
+	.quad	.LFE1-.LFB1
+	.uleb128 0x1
+	.byte	0x9c
+	.long	0x1f8
+	.uleb128 0x7
+	.string	"cwd"
+	.byte	0x27
+	.byte	0x14
+	.long	0x87
+	.uleb128 0x2
+	.byte	0x91
+	.sleb128 -56
+	.uleb128 0x8
+	.long	.LASF21
+	.byte	0x27
+	.byte	0x20
+	.long	0x87
+	.uleb128 0x2
+	.byte	0x91
+	.sleb128 -64
+	.uleb128 0x3
+	.long	.LASF18
+	.byte	0x29
+	.byte	0xb
+	.long	0x94
+	.uleb128 0x2
+	.byte	0x91
+	.sleb128 -24
+	.uleb128 0x3
+	.long	.LASF22
+	.byte	0x2a
+	.byte	0x9
+	.long	0x87
+	.uleb128 0x2
+	.byte	0x91
+	.sleb128 -32
+	.uleb128 0x3
+	.long	.LASF23
+	.byte	0x2b
+	.byte	0xb
+	.long	0x94
+	.uleb128 0x2
+	.byte	0x91
+	.sleb128 -40
+	.uleb128 0x3
+	.long	.LASF24
+	.byte	0x2d
+	.byte	0x9
+	.long	0x87
+	.uleb128 0x2
+	.byte	0x91
+	.sleb128 -48
+	.byte	0
+	.uleb128 0x13
+	.long	.LASF29
+	.byte	0x1
+	.byte	0x8
+	.byte	0x6
+	.quad	.LFB0
+	.quad	.LFE0-.LFB0
+	.uleb128 0x1
+	.byte	0x9c
+	.uleb128 0x9
+	.string	"f"
+	.byte	0xa
+	.byte	0x9
+	.long	0x87
+	.uleb128 0x2
+	.byte	0x91
+	.sleb128 -24
+	.byte	0
+	.byte	0
+	.section	.debug_abbrev,"",@progbits
+.Ldebug_abbrev0:
+	.uleb128 0x1
+	.uleb128 0x24
+	.byte	0
+	.uleb128 0xb
+	.uleb128 0xb
+	.uleb128 0x3e
+	.uleb128 0xb
+	.uleb128 0x3
+	.uleb128 0xe
+	.byte	0
+	.byte	0
+	.uleb128 0x2
+	.uleb128 0x5
+	.byte	0
+	.uleb128 0x49
+	.uleb128 0x13
+	.byte	0
+	.byte	0
+	.uleb128 0x3
+	.uleb128 0x34
+	.byte	0
+	.uleb128 0x3
+	.uleb128 0xe
+	.uleb128 0x3a
+	.uleb128 0x21
+	.sleb128 1
+	.uleb128 0x3b
+	.uleb128 0xb
+	.uleb128 0x39
+	.uleb128 0xb
+	.uleb128 0x49
+	.uleb128 0x13
+	.uleb128 0x2
+	.uleb128 0x18
+	.byte	0
+	.byte	0
+	.uleb128 0x4
+	.uleb128 0x2e
+	.byte	0x1
+	.uleb128 0x3f
+	.uleb128 0x19
+	.uleb128 0x3
+	.uleb128 0xe
+	.uleb128 0x3a
+	.uleb128 0x21
+	.sleb128 4
+	.uleb128 0x3b
+	.uleb128 0xb
+	.uleb128 0x39
+	.uleb128 0xb
+	.uleb128 0x27
+	.uleb128 0x19
+	.uleb128 0x49
+	.uleb128 0x13
+	.uleb128 0x3c
+	.uleb128 0x19
+	.uleb128 0x1
+	.uleb128 0x13
+	.byte	0
+	.byte	0
+	.uleb128 0x5
+	.uleb128 0xf
+	.byte	0
+	.uleb128 0xb
+	.uleb128 0x21
+	.sleb128 8
+	.uleb128 0x49
+	.uleb128 0x13
+	.byte	0
+	.byte	0
+	.uleb128 0x6
+	.uleb128 0x2e
+	.byte	0x1
+	.uleb128 0x3
+	.uleb128 0xe
+	.uleb128 0x3a
+	.uleb128 0x21
+	.sleb128 1
+	.uleb128 0x3b
+	.uleb128 0xb
+	.uleb128 0x39
+	.uleb128 0x21
+	.sleb128 1
+	.uleb128 0x27
+	.uleb128 0x19
+	.uleb128 0x49
+	.uleb128 0x13
+	.uleb128 0x11
+	.uleb128 0x1
+	.uleb128 0x12
+	.uleb128 0x7
+	.uleb128 0x40
+	.uleb128 0x18
+	.uleb128 0x7c
+	.uleb128 0x19
+	.uleb128 0x1
+	.uleb128 0x13
+	.byte	0
+	.byte	0
+	.uleb128 0x7
+	.uleb128 0x5
+	.byte	0
+	.uleb128 0x3
+	.uleb128 0x8
+	.uleb128 0x3a
+	.uleb128 0x21
+	.sleb128 1
+	.uleb128 0x3b
+	.uleb128 0xb
+	.uleb128 0x39
+	.uleb128 0xb
+	.uleb128 0x49
+	.uleb128 0x13
+	.uleb128 0x2
+	.uleb128 0x18
+	.byte	0
+	.byte	0
+	.uleb128 0x8
+	.uleb128 0x5
+	.byte	0
+	.uleb128 0x3
+	.uleb128 0xe
+	.uleb128 0x3a
+	.uleb128 0x21
+	.sleb128 1
+	.uleb128 0x3b
+	.uleb128 0xb
+	.uleb128 0x39
+	.uleb128 0xb
+	.uleb128 0x49
+	.uleb128 0x13
+	.uleb128 0x2
+	.uleb128 0x18
+	.byte	0
+	.byte	0
+	.uleb128 0x9
+	.uleb128 0x34
+	.byte	0
+	.uleb128 0x3
+	.uleb128 0x8
+	.uleb128 0x3a
+	.uleb128 0x21
+	.sleb128 1
+	.uleb128 0x3b
+	.uleb128 0xb
+	.uleb128 0x39
+	.uleb128 0xb
+	.uleb128 0x49
+	.uleb128 0x13
+	.uleb128 0x2
+	.uleb128 0x18
+	.byte	0
+	.byte	0
+	.uleb128 0xa
+	.uleb128 0x11
+	.byte	0x1
+	.uleb128 0x25
+	.uleb128 0xe
+	.uleb128 0x13
+	.uleb128 0xb
+	.uleb128 0x3
+	.uleb128 0x1f
+	.uleb128 0x1b
+	.uleb128 0x1f
+	.uleb128 0x11
+	.uleb128 0x1
+	.uleb128 0x12
+	.uleb128 0x7
+	.uleb128 0x10
+	.uleb128 0x17
+	.byte	0
+	.byte	0
+	.uleb128 0xb
+	.uleb128 0x24
+	.byte	0
+	.uleb128 0xb
+	.uleb128 0xb
+	.uleb128 0x3e
+	.uleb128 0xb
+	.uleb128 0x3
+	.uleb128 0x8
+	.byte	0
+	.byte	0
+	.uleb128 0xc
+	.uleb128 0x16
+	.byte	0
+	.uleb128 0x3
+	.uleb128 0xe
+	.uleb128 0x3a
+	.uleb128 0xb
+	.uleb128 0x3b
+	.uleb128 0x5
+	.uleb128 0x39
+	.uleb128 0xb
+	.uleb128 0x49
+	.uleb128 0x13
+	.byte	0
+	.byte	0
+	.uleb128 0xd
+	.uleb128 0x16
+	.byte	0
+	.uleb128 0x3
+	.uleb128 0xe
+	.uleb128 0x3a
+	.uleb128 0xb
+	.uleb128 0x3b
+	.uleb128 0xb
+	.uleb128 0x39
+	.uleb128 0xb
+	.uleb128 0x49
+	.uleb128 0x13
+	.byte	0
+	.byte	0
+	.uleb128 0xe
+	.uleb128 0x13
+	.byte	0x1
+	.uleb128 0x3
+	.uleb128 0xe
+	.uleb128 0xb
+	.uleb128 0xb
+	.uleb128 0x3a
+	.uleb128 0xb
+	.uleb128 0x3b
+	.uleb128 0xb
+	.uleb128 0x39
+	.uleb128 0xb
+	.uleb128 0x1
+	.uleb128 0x13
+	.byte	0
+	.byte	0
+	.uleb128 0xf
+	.uleb128 0xd
+	.byte	0
+	.uleb128 0x3
+	.uleb128 0xe
+	.uleb128 0x3a
+	.uleb128 0xb
+	.uleb128 0x3b
+	.uleb128 0xb
+	.uleb128 0x39
+	.uleb128 0xb
+	.uleb128 0x49
+	.uleb128 0x13
+	.uleb128 0x38
+	.uleb128 0xb
+	.byte	0
+	.byte	0
+	.uleb128 0x10
+	.uleb128 0x1
+	.byte	0x1
+	.uleb128 0x49
+	.uleb128 0x13
+	.uleb128 0x1
+	.uleb128 0x13
+	.byte	0
+	.byte	0
+	.uleb128 0x11
+	.uleb128 0x21
+	.byte	0
+	.uleb128 0x49
+	.uleb128 0x13
+	.uleb128 0x2f
+	.uleb128 0xb
+	.byte	0
+	.byte	0
+	.uleb128 0x12
+	.uleb128 0x2e
+	.byte	0x1
+	.uleb128 0x3f
+	.uleb128 0x19
+	.uleb128 0x3
+	.uleb128 0xe
+	.uleb128 0x3a
+	.uleb128 0xb
+	.uleb128 0x3b
+	.uleb128 0xb
+	.uleb128 0x39
+	.uleb128 0xb
+	.uleb128 0x27
+	.uleb128 0x19
+	.uleb128 0x3c
+	.uleb128 0x19
+	.uleb128 0x1
+	.uleb128 0x13
+	.byte	0
+	.byte	0
+	.uleb128 0x13
+	.uleb128 0x2e
+	.byte	0x1
+	.uleb128 0x3f
+	.uleb128 0x19
+	.uleb128 0x3
+	.uleb128 0xe
+	.uleb128 0x3a
+	.uleb128 0xb
+	.uleb128 0x3b
+	.uleb128 0xb
+	.uleb128 0x39
+	.uleb128 0xb
+	.uleb128 0x27
+	.uleb128 0x19
+	.uleb128 0x11
+	.uleb128 0x1
+	.uleb128 0x12
+	.uleb128 0x7
+	.uleb128 0x40
+	.uleb128 0x18
+	.uleb128 0x7c
+	.uleb128 0x19
+	.byte	0
+	.byte	0
+	.byte	0
+	.section	.debug_aranges,"",@progbits
+	.long	0x2c
+	.value	0x2
+	.long	.Ldebug_info0
+	.byte	0x8
+	.byte	0
+	.value	0
+	.value	0
+	.quad	.Ltext0
+	.quad	.Letext0-.Ltext0
+	.quad	0
+	.quad	0
+	.section	.debug_line,"",@progbits
+.Ldebug_line0:
+	.section	.debug_str,"MS",@progbits,1
+.LASF18:
+	.string	"fname"
+.LASF13:
+	.string	"String"
+.LASF10:
+	.string	"float"
+.LASF21:
+	.string	"file"
+.LASF2:
+	.string	"unsigned char"
+.LASF15:
+	.string	"fnameUnparse"
+.LASF5:
+	.string	"long unsigned int"
+.LASF3:
+	.string	"short unsigned int"
+.LASF27:
+	.string	"partv"
+.LASF11:
+	.string	"double"
+.LASF20:
+	.string	"fnameToRoot"
+.LASF7:
+	.string	"short int"
+.LASF29:
+	.string	"fnameTest"
+.LASF4:
+	.string	"unsigned int"
+.LASF9:
+	.string	"char"
+.LASF25:
+	.string	"GNU C99 12.2.0 -mtune=generic -march=x86-64 -g -O0 -std=c99 -fasynchronous-unwind-tables"
+.LASF17:
+	.string	"fnameParseStaticWithin"
+.LASF12:
+	.string	"long long int"
+.LASF19:
+	.string	"fnameAbsolute"
+.LASF26:
+	.string	"fileName"
+.LASF28:
+	.string	"testStringEqual"
+.LASF14:
+	.string	"FileName"
+.LASF23:
+	.string	"rootDir"
+.LASF8:
+	.string	"long int"
+.LASF16:
+	.string	"fnameNew"
+.LASF6:
+	.string	"signed char"
+.LASF22:
+	.string	"binDir"
+.LASF24:
+	.string	"root"
+	.section	.debug_line_str,"MS",@progbits,1
+.LASF1:
+	.string	"/repo/aldor/aldor/src"
+.LASF0:
+	.string	"test/test_fname.c"
+	.ident	"GCC: (Debian 12.2.0-14+deb12u1) 12.2.0"
+	.section	.note.GNU-stack,"",@progbits
